@@ -9,9 +9,9 @@ INCLUDE = [
     r'^TransferCoordinator\.(?!__init__|__repr__)', r'^BoundedExecutor\.submit', r'^TransferFuture\.', r'^ExecutorFuture\.',
     r'^Task\.(__call__|_execute_main|_wait|_get_all_main_kwargs|_log_and_set_exception)', r'^SubmissionTask\.', r'^CreateMultipartUploadTask\._main',
     r'^CompleteMultipartUploadTask\._main', r'^CountCallbackInvoker\.(?!__init__)', r'^SlidingWindowSemaphore\.(?!__init__)', r'^TaskSemaphore\.(?!__init__)',
-    r'^ReadFileChunk\.(read|seek|close|signal|enable|disable)', r'^DeferredOpenFile\.(?!__init__)', r'^DownloadNonSeekableOutputManager\.(queue_file_io_task|get_immediate)',
-    r'^DownloadOutputManager\.(queue_file_io_task|get_immediate)', r'^DownloadSubmissionTask\._submit', r'^GetObjectTask\._', r'^ImmediatelyWriteIOGetObjectTask\._',
-    r'^DeferQueue\.request_writes', r'^IO\w+Task\._main', r'^DownloadChunkIterator\.__next__', r'^DownloadFilenameOutputManager\.(?!__init__)',
+    r'^ReadFileChunk\.(read|seek|close|signal|enable|disable)', r'^DeferredOpenFile\.(?!__init__)', r'^DownloadNonSeekableOutputManager\.(?!__init__)',
+    r'^DownloadOutputManager\.(?!__init__)', r'^DownloadSubmissionTask\._submit', r'^GetObjectTask\._', r'^ImmediatelyWriteIOGetObjectTask\._',
+    r'^DeferQueue\.(?!__init__)', r'^IO\w+Task\._main', r'^DownloadChunkIterator\.__next__', r'^DownloadFilenameOutputManager\.(?!__init__)',
     r'^UploadSubmissionTask\._submit', r'^Upload\w+InputManager\.(yield_upload_part_bodies|_read|get_put_object_body|_wrap)', r'^AggregatedProgressCallback\.(?!__init__)',
     r'^PutObjectTask\._main', r'^UploadPartTask\._main', r'^InterruptReader\.read', r'^TransferManager\.(_submit_transfer|_shutdown|shutdown|__exit__)',
     r'^TransferCoordinatorController\.(?!__init__)', r'^CopySubmissionTask\._submit', r'^CopyObjectTask\._main', r'^CopyPartTask\._main',
@@ -48,8 +48,8 @@ def sample(rng, n, action='pause', files=None, nth_max=3, quals=None):
 
 
 CORE = [r'^TransferCoordinator\.(?!__init__|__repr__)', r'^Task\.(__call__|_execute_main)', r'^SubmissionTask\._main', r'^CountCallbackInvoker\.(?!__init__)',
-        r'^SlidingWindowSemaphore\.(?!__init__)', r'^BoundedExecutor\.submit', r'^DeferQueue\.request_writes',
-        r'^DownloadNonSeekableOutputManager\.(queue_file_io_task|get_immediate)', r'^AggregatedProgressCallback\.(?!__init__)',
+        r'^SlidingWindowSemaphore\.(?!__init__)', r'^BoundedExecutor\.submit', r'^DeferQueue\.(?!__init__)',
+        r'^DownloadNonSeekableOutputManager\.(?!__init__)', r'^AggregatedProgressCallback\.(?!__init__)',
         r'^TransferCoordinatorController\.(?!__init__)']
 
 DL = [('download', {'dst': 'path'}), ('download', {'dst': 'seekable'}), ('download', {'dst': 'nonseekable'}), ('download', {'dst': 'fifo'})]
